@@ -113,6 +113,8 @@ func execInfoDL(ops []string) []string {
 					r = "err:unrequested"
 				case strings.Contains(err.Error(), "invalid size"):
 					r = "err:size"
+				case strings.Contains(err.Error(), "piece again"):
+					r = "err:duplicate"
 				default:
 					r = "err:other"
 				}
